@@ -309,9 +309,18 @@ Print Assumptions torch_seed_determinism.
     same too-short gate, same frame count, same pads, for all L, S, N and styles *)
 Theorem stft_plan_numpy_equals_torch :
   forall (Lf S : Z) (centered k : bool) (N : Z),
-    np_stft_plan Lf S (negb centered) k N = pt_stft_plan Lf S centered k N.
+    pt_stft_plan Lf S centered k N = plan_obs (np_stft_plan Lf S (negb centered) k N).
 Proof. exact stft_plan_np_eq_pt_l. Qed.
 Print Assumptions stft_plan_numpy_equals_torch.
+
+(** ... literally the same plan whenever frame_shift <= frame_length; [plan_obs] only matters for
+    frame_shift > frame_length, where a signal can pass the too-short gate and still have no frame
+    (the PyTorch port then returns the empty matrix before its FFT, fix 3dd998d) *)
+Theorem stft_plan_numpy_equals_torch_narrow :
+  forall (Lf S : Z) (centered k : bool) (N : Z), 0 < S <= Lf ->
+    pt_stft_plan Lf S centered k N = np_stft_plan Lf S (negb centered) k N.
+Proof. exact stft_plan_np_eq_pt_narrow_l. Qed.
+Print Assumptions stft_plan_numpy_equals_torch_narrow.
 
 Theorem stft_no_frame_iff_too_short :
   forall (Lf S : Z) (causal k : bool) (N : Z),
